@@ -70,6 +70,7 @@ def build_items(case: Case) -> list[Item]:
         return items
     cfg = structs.cfg_term(cs, case.text)
     ty = structs.ty_term(T)
+    case._cs, case._T = cs, T
     for op in case.ops:
         try:
             if op[0] == "parse":
@@ -116,6 +117,26 @@ def build_items(case: Case) -> list[Item]:
                     exp = canon.cerr(e)
                 m = f"(dumps {cfg} {ty} {structs.value_term(v, T)})"
                 items.append(Item(case, op, f"rb_eqb {m} {exp}", m, ("mutdump", d)))
+            elif op[0] == "construct":
+                # ("construct", seed, overflow): build a value directly (structs.gen_py), dump it
+                import random as _random
+
+                flag = [bool(op[2])]
+                try:
+                    v = structs.gen_py(T, _random.Random(op[1]), flag)
+                    if op[2] and flag[0]:
+                        raise NotImplementedError("no integer field to overflow")
+                except NotImplementedError as e:
+                    items.append(Item(case, op, None, None, None, skipped=str(e)))
+                    continue
+                try:
+                    d = v.dumps()
+                    exp = f"(Ok {canon.cbytes(d)})"
+                except Exception as e:  # noqa: BLE001
+                    d = e
+                    exp = canon.cerr(e)
+                m = f"(dumps {cfg} {ty} {structs.value_term(v, T)})"
+                items.append(Item(case, op, f"rb_eqb {m} {exp}", m, ("construct", v, d)))
             elif op[0] == "layout":
                 offs, size, al = layout_of(T)
                 exp = f"(Ok (mkLay {clist((copt(o, cz) for o in offs), '(option Z)')} {copt(size, cz)} {cz(al)}))"
